@@ -44,6 +44,23 @@ SUMMARY = {
     "C17-A": ("servers/misc.py: context managers swapped so on_disconnection() runs outside the per-client exception guard", "a non-ConnectionError raised by one client's on_disconnection()"),
     "C17-B": ("lowlevel/constants.py: lost comma drops ECONNABORTED and EPROTO from IGNORABLE_ACCEPT_ERRNOS", "accept() failing with ECONNABORTED/EPROTO (connection aborted in the listen queue)"),
     # ---- round 2 (authors were told the round-1 ideas and asked for different ones)
+    "C01-C": ("raw JSON _escaped(): backslash-parity loop replaced by 'previous byte is a backslash and the one before is not'", "a string containing a backslash immediately followed by a quote (three backslashes before a quote), use_lines=False"),
+    "C01-D": ("FixedSizePacketSerializer buffered path hands deserialize() a memoryview of the reused buffer", "a subclass returning its argument unchanged; packets compared after later traffic"),
+    "C02-C": ("LimitOverrunError keeps the tail only if ALL of it is a separator prefix", "separator ≥ 3 bytes, oversized frame, read boundary inside the terminator"),
+    "C02-D": ("raw JSON: skipped leading whitespace no longer stripped before the plain-value phase", "plain-value frame (5, true) and a read boundary between the previous frame and its trailing whitespace"),
+    "C03-C": ("async endpoint receive(): 'packet already buffered' fast path becomes a checkpoint after the packet was taken out", "≥ 1 complete packet buffered and a cancellation/timeout on that call (iter_received_packets(timeout=0))"),
+    "C03-D": ("receive_data(): left-over compaction `[-unused:]` → `[unused:]`", "> max_recv_size accumulated in the transport buffer while no reader is pending"),
+    "C04-C": ("TLS __write_all_to_ssl_object: popleft before write (same as C12-C)", "SSLObject.write() raising WantRead mid-packet — unreachable with real OpenSSL"),
+    "C04-D": ("SelectorBaseTransport._retry: `if wait_time == inf` → `if timeout == inf` (no periodic retry with timeout=None)", "a would-block that resolves WITHOUT the descriptor becoming ready (e.g. a TLS client shared by two threads)"),
+    "C06-C": ("_buffered_readuntil find() unbounded (as C01-A)", "buffered mode, an earlier longer frame, then a shorter frame cut at a segment boundary"),
+    "C06-D": ("raw JSON raw_parse: `enclosure_counter <= 0` → `== 0`", "a frame whose first byte is a stray closing bracket: buffered until the limit instead of being reported"),
+    "C07-C": ("raw JSON: leading whitespace exempted from the 'not complete' limit check but still accumulated", "a stream of only JSON whitespace before any document starts"),
+    "C08-C": ("_retry_ssl_method: pending cipher-text flushed inside the receive lock", "a task parked in recv(), aclose() from another task, idle peer: close_notify never leaves until the shutdown timeout"),
+    "C08-D": ("_retry_ssl_method: `except OSError` → `except BaseException` marks both BIOs EOF", "a recv() cancelled while it waits for cipher-text, then another read"),
+    "C09-C": ("same edit as C08-C", "reader parked in recv() + aclose() from another task"),
+    "C09-D": ("_retry_ssl_method success branch: flush condition loses `wait_for_flush or`", "peer's close_notify consumed, a send_all() in flight holding the send lock, aclose() from another task: close_notify (and data) lost"),
+    "C10-C": ("_wait_for_data: `except BaseException` → `except Exception` (the rescue of bytes in the caller's buffer never runs)", "read event, then cancellation in the same iteration, then wake-up, recv_into path"),
+    "C10-D": ("_retry_ssl_method success branch flushes on `pending` alone (half of the D9 fix)", "one writer blocked holding the send lock, a second queued with cipher-text pending, a receive under a timeout"),
     "C05-C": ("MAX_DATAGRAM_BUFSIZE 64 KiB → 65507 (IPv4 maximum)", "blocking path, IPv6, a datagram of 65508–65527 bytes"),
     "C05-D": ("SocketDatagramTransport.send_noblock swallows ConnectionRefusedError", "a pending ICMP error at send time: send_packet returns normally with zero datagrams"),
     "C11-C": ("sendmsg path: remaining timeout dropped across partial writes (same edit as C04-A)", "a plain-TCP send that blocks at least twice, each wait < T, sum > T"),
@@ -77,6 +94,9 @@ SUMMARY = {
 
 EXPECTED_SURVIVE = {
     "C12-C": "needs SSLObject.write() to raise SSLWantRead/WantWrite in the middle of a packet; real OpenSSL over a MemoryBIO never does that after the handshake (probed by two harness authors; the stdlib offers no renegotiation/KeyUpdate trigger). The author's demo uses a fake TLS engine. Recorded as unreachable for a simulation that runs the real ssl module.",
+    "C04-C": "same edit as C12-C: unreachable with the real ssl module (needs SSLObject.write() to raise WantRead/WantWrite mid-packet).",
+    "C04-D": "needs a would-block condition that is resolved without the descriptor ever becoming ready (a TLS client shared by two threads where the receiver consumes the record the sender waits for, or data buffered inside OpenSSL). The simulated selector reports readiness truthfully and the blocking TLS harnesses are single-threaded, so an un-timed select() still returns. Not modelled; stated limitation.",
+    "C06-D": "a stray closing bracket is raw-JSON garbage without frame structure: C02 demands nothing there (by design of the statement), and every C06 clause still holds under the change (only parse errors escape, every reported error consumes bytes, nothing hangs, the C07 bound holds: the garbage is reported as a LimitOverrunError once the limit is reached). Outside the listed statements.",
     "C15-C": "only removes a TimeoutError that should fire; the property states the other direction only ('TimeoutError only if no complete request arrived in time'), so a check that demanded it would go beyond the statement.",
 }
 
